@@ -56,6 +56,31 @@ def _spec_default(fn: ast.FunctionDef, key: str):
     raise P.Untranslatable(f"PDFCIDFont.__init__: default of {key} not found")
 
 
+def _collection_call(fn: ast.FunctionDef):
+    """The CMapDB.get_unicode_map(self.cidcoding, <vertical>) call of PDFCIDFont.__init__ and the tuple of
+    collections served by the embedded TrueType cmap instead."""
+    uses_wmode = None
+    ttf_codings = None
+    for n in ast.walk(fn):
+        if (isinstance(n, ast.Call) and isinstance(n.func, ast.Attribute) and n.func.attr == "get_unicode_map"
+                and isinstance(n.func.value, ast.Name) and n.func.value.id == "CMapDB"):
+            args = list(n.args) + [k.value for k in n.keywords if k.arg == "vertical"]
+            if not (args and ast.unparse(args[0]) == "self.cidcoding"):
+                raise P.Untranslatable("get_unicode_map is not called with self.cidcoding")
+            if len(args) == 1:
+                uses_wmode = False          # default vertical=False
+            elif len(args) == 2 and ast.unparse(args[1]) in ("self.cmap.is_vertical()", "self.vertical"):
+                uses_wmode = True
+            else:
+                raise P.Untranslatable("get_unicode_map: unexpected writing-mode argument " + ast.unparse(n)[:80])
+        if (isinstance(n, ast.Compare) and ast.unparse(n.left) == "self.cidcoding" and len(n.ops) == 1
+                and isinstance(n.ops[0], ast.In)):
+            ttf_codings = P.literal(n.comparators[0])
+    if uses_wmode is None or not (isinstance(ttf_codings, tuple) and all(isinstance(x, str) for x in ttf_codings)):
+        raise P.Untranslatable("PDFCIDFont.__init__: collection map selection not recognised")
+    return uses_wmode, ttf_codings
+
+
 def generate(lean_dir: str):
     font = P.parse_file("pdfminer/pdffont.py")
     cmapdb = P.parse_file("pdfminer/cmapdb.py")
@@ -77,6 +102,11 @@ def generate(lean_dir: str):
                ", ".join(f"({P.lean_string(n)}, ({w}, {m}))" for n, w, m in chain) + "]\n\n")
     out.append(f"def DW_DEFAULT : Rat := {dw}\n\n")
     out.append(f"/-- (vy, w1y) -/\ndef DW2_DEFAULT : Rat × Rat := (({dw2[0]} : Int), ({dw2[1]} : Int))\n\n")
+    uses_wmode, ttf_codings = _collection_call(init)
+    out.append("/-- `self.cidcoding in (...)`: collections whose Unicode comes from the embedded TrueType cmap -/\n"
+               "def TTF_CODINGS : List String := [" + ", ".join(P.lean_string(x) for x in ttf_codings) + "]\n\n")
+    out.append("/-- does `CMapDB.get_unicode_map(self.cidcoding, …)` receive the writing mode of the encoding CMap? -/\n"
+               f"def COLLECTION_MAP_USES_WMODE : Bool := {'true' if uses_wmode else 'false'}\n\n")
     out.append("end PdfVerif.Gen.CIDFont\n")
     path = os.path.join(lean_dir, "PdfVerif", "Gen", "CIDFont.lean")
     P.write_if_changed(path, "".join(out))
